@@ -16,7 +16,7 @@
 From Coq Require Import List NArith.
 From HV Require Import Base.Res Base.Str Base.SchemaData Model.Schema Model.Resolve.
 From HV Require Import Model.Parse Proofs.ParseRefine Proofs.ParsePrint.
-From HV Require Import Model.Schema Model.Resolve.
+From HV Require Import Model.Schema Model.Resolve Model.Histories Proofs.HistoriesProofs.
 From HV Require Import Proofs.SchemaProofs Proofs.ResolveProofs Proofs.ResolveExamples Proofs.FormsWellFormed.
 From HV Require Gen.FoldTable Gen.Schema_8_0_0 Gen.SchemaWF_8_0_0 Gen.Schema_8_1_0 Gen.SchemaWF_8_1_0 Gen.Schema_8_2_0 Gen.SchemaWF_8_2_0 Gen.Schema_8_3_0 Gen.SchemaWF_8_3_0 Gen.Schema_score_1_0_0 Gen.SchemaWF_score_1_0_0 Gen.Schema_score_1_1_0 Gen.SchemaWF_score_1_1_0 Gen.Schema_score_2_0_0 Gen.SchemaWF_score_2_0_0 Gen.Schema_testlib_1_0_2 Gen.SchemaWF_testlib_1_0_2 Gen.Schema_testlib_2_0_0 Gen.SchemaWF_testlib_2_0_0 Gen.Schema_testlib_2_1_0 Gen.SchemaWF_testlib_2_1_0 Gen.Schema_testlib_3_0_0 Gen.SchemaWF_testlib_3_0_0.
 Import ListNotations.
@@ -126,6 +126,44 @@ Section C03.
        parse_sh (pr_list l) = l).
   Proof. exact (print_short_long_reparse foldc fold_slash fold_hash). Qed.
 
+  (* ---- histories: one schema object, one HedTag object (Model/Histories.v) ----
+     A schema object answers lookups and gets further vocabularies merged into the SAME tag section (the
+     partnered library is built that way on a copy of the standard schema; load_schema(..., schema=existing)).
+     After ANY history of lookups and merges every answer is the one of a table built from scratch out of the
+     names held at that moment: nothing that was looked up before matters. *)
+  Theorem C03_schema_history : forall fx ops S,
+    srun foldc fx (build_table foldc S) ops = sref foldc fx S ops.
+  Proof. exact (schema_history foldc). Qed.
+
+  Theorem C03_lookup_after_history : forall fx S a sns t b,
+    exists pre post,
+      srun foldc fx (build_table foldc S) (a ++ SLookup sns t :: b)
+      = pre ++ resolve foldc fx (S ++ merged a) sns t :: post /\ length pre = length (sref foldc fx S a).
+  Proof. exact (lookup_after_history foldc). Qed.
+
+  (* reading the forms of a HedTag, or copying it, never changes what later operations and reads give *)
+  Theorem C03_tag_reads_invisible : forall T sns ops h,
+    trun foldc T sns h ops = trun foldc T sns h (filter mutating ops).
+  Proof. exact (tag_reads_invisible foldc). Qed.
+
+  (* a HedTag on node n (or its '#' child) whose value/extension has become "/r" by whatever operations
+     (replace_placeholder, extension setter, short_base_tag setter) and the tag freshly parsed from its short
+     form or from its long form are the same tag -- hence the four equations hold for mutated tags too *)
+  Theorem C03_mutated_tag_reparses : forall S, WFschema foldc S = true -> forall T, build_table foldc S = Ok T ->
+    forall fx, fix_index fx = true ->
+    forall n r sns t0 text,
+      In n S -> is_value n = false ->
+      no_longer_form foldc T (last_comp n) r = true ->
+      (takes_value_child foldc T (ent n) <> None \/ ext_terms_free foldc T r = true) ->
+      str_eqb (get_schema_namespace t0) sns = true ->
+      let e' := match takes_value_child foldc T (ent n) with Some v => v | None => ent n end in
+      let h := mkHedTag text (get_schema_namespace t0) (Some e') (ch_slash :: r) in
+      hedtag_init foldc fx T sns (short_tag h)
+        = mkHedTag (short_tag h) (get_schema_namespace t0) (Some e') (ch_slash :: r) /\
+      hedtag_init foldc fx T sns (long_tag h)
+        = mkHedTag (long_tag h) (get_schema_namespace t0) (Some e') (ch_slash :: r).
+  Proof. exact (mutated_tag_reparses foldc fold_slash fold_hash). Qed.
+
   (* ---- record of the repaired defects: what held of the code BEFORE the two fix: commits ---- *)
 
   (* before the '#' repair (C03-F2) the round trip held only for texts without "/#/" *)
@@ -162,6 +200,10 @@ Print Assumptions C03_long_short_inverse.
 Print Assumptions C03_short_form_wellformed.
 Print Assumptions C03_long_form_wellformed.
 Print Assumptions C03_print_short_long_reparse.
+Print Assumptions C03_schema_history.
+Print Assumptions C03_lookup_after_history.
+Print Assumptions C03_tag_reads_invisible.
+Print Assumptions C03_mutated_tag_reparses.
 Print Assumptions C03_long_short_inverse_before_hash_fix.
 Print Assumptions C03_before_index_fix_same_on_simple_foldings.
 
